@@ -1,19 +1,1283 @@
-// Package c13: STUB — property C13 is not built yet.
+// Package c13: verification reports exactly the unmet expectations since the last reset.
+//
+// Op grammar (tokens separated by one space; strings hex-encoded with core.Hex, "-" = empty):
+//
+//	tree <m|d> NODE           install a configuration (m: through martianhttp.Modifier as cmd/proxy does,
+//	                          d: the parse result wired to the handlers directly)
+//	  NODE  := L <scope> LEAF | G <scope> <agg> <n> NODE*n | F <scope> COND <hasElse> NODE [NODE]
+//	  LEAF  := status <n> | header <name> <value> | method <m> | url <s> <h> <p> <q> | qs <k> <v> |
+//	           failure <msg> | ping <s> <h> <p> <q> | nop | fail
+//	  COND  := header <name> <value> | url <s> <h> <p> <q> | method <m>
+//	  scope := d (absent) | e ([]) | q | s | b
+//	t <api> <method> <scheme> <host> <path> <query> <frag> <reqhdrs> <status> <reshdrs>
+//	                          one exchange: ModifyRequest then ModifyResponse; frag is the message id "m<k>"
+//	q                         GET the verification handler      -> q <n> <message>*n
+//	r                         POST the reset handler            -> r 204
+//	qbad / rbad               wrong method on the handlers      -> 405, nothing changes
+//	conc <seed> <q|r>         8 goroutines of traffic racing queries (and resets); oracle only; ends with a reset
+//	race <A|B|P|Q>              race-detector run of cmd/c13race (oracle only)
+//	urlstr <s> <h> <p> <q> <f> url.URL.String() against the model's urlString
 package c13
 
-import "verif/harness/internal/core"
+import (
+	"bytes"
+	"encoding/json"
+	"fmt"
+	"io"
+	"net/http"
+	"net/http/httptest"
+	"net/url"
+	"regexp"
+	"sort"
+	"strconv"
+	"strings"
+	"sync"
+	"sync/atomic"
+	"time"
+
+	"github.com/google/martian/v3"
+	_ "github.com/google/martian/v3/failure"
+	_ "github.com/google/martian/v3/fifo"
+	_ "github.com/google/martian/v3/header"
+	"github.com/google/martian/v3/martianhttp"
+	_ "github.com/google/martian/v3/martianurl"
+	_ "github.com/google/martian/v3/method"
+	"github.com/google/martian/v3/parse"
+	_ "github.com/google/martian/v3/pingback"
+	"github.com/google/martian/v3/proxyutil"
+	_ "github.com/google/martian/v3/querystring"
+	_ "github.com/google/martian/v3/status"
+	"github.com/google/martian/v3/verify"
+
+	"verif/harness/internal/core"
+)
 
 type P struct{}
 
-func init() { core.Register(P{}) }
+func init() {
+	core.Register(P{})
+	parse.Register("c13.Nop", func(b []byte) (*parse.Result, error) {
+		var msg struct {
+			Scope []parse.ModifierType `json:"scope"`
+		}
+		if err := json.Unmarshal(b, &msg); err != nil {
+			return nil, err
+		}
+		return parse.NewResult(probe{false}, msg.Scope)
+	})
+	parse.Register("c13.Fail", func(b []byte) (*parse.Result, error) {
+		var msg struct {
+			Scope []parse.ModifierType `json:"scope"`
+		}
+		if err := json.Unmarshal(b, &msg); err != nil {
+			return nil, err
+		}
+		return parse.NewResult(probe{true}, msg.Scope)
+	})
+}
 
-func (P) ID() string   { return "C13" }
-func (P) Rule() string { return "stub" }
-func (P) Gen(r *core.Rand, tier string, emit func([]string)) {}
-func (P) NewExec() core.Exec                                   { return ex{} }
-func (P) Nontrivial(ops []string, impl []string) bool         { return false }
+// probe is a modifier that is no verifier; with fail set it returns an error (halts a
+// non-aggregating fifo.Group).
+type probe struct{ fail bool }
 
-type ex struct{}
+func (p probe) ModifyRequest(*http.Request) error {
+	if p.fail {
+		return fmt.Errorf("c13 probe error")
+	}
+	return nil
+}
+func (p probe) ModifyResponse(*http.Response) error {
+	if p.fail {
+		return fmt.Errorf("c13 probe error")
+	}
+	return nil
+}
 
-func (ex) Do(op string) core.Result { return core.Result{Impl: "bad-op"} }
-func (ex) Close()                   {}
+func (P) ID() string { return "C13" }
+func (P) Rule() string {
+	return "case = one random configuration tree (fifo.Group nested up to depth 4, header/url/method filters with and without else branch, " +
+		"all seven verifier kinds, non-verifier probes, request/response/both/empty scopes; installed through martianhttp.Modifier or wired directly) " +
+		"followed by 8-40 ops: exchanges (15% marked as API requests), verification queries, resets, wrong-method handler calls, and in part of the cases a " +
+		"concurrent phase (8 goroutines of traffic racing queries/resets); distinct by hash of the op list; non-trivial when a query reports at least one " +
+		"failure, a reset follows it and a query follows the reset"
+}
+
+func (P) Nontrivial(ops []string, impl []string) bool {
+	stage := 0
+	for i, op := range ops {
+		switch {
+		case op == "q" && stage == 0 && i < len(impl) && !strings.HasPrefix(impl[i], "q 0"):
+			stage = 1
+		case op == "r" && stage == 1:
+			stage = 2
+		case op == "q" && stage == 2:
+			return true
+		}
+	}
+	return false
+}
+
+// ---------------------------------------------------------------------------------------------
+// configuration trees
+
+type node struct {
+	typ   string // L G F
+	scope string
+	leaf  string   // status header method url qs failure ping nop fail
+	args  []string // decoded strings of the leaf / the condition
+	cond  string   // header url method
+	agg   bool
+	kids  []*node // G: children; F: then [, else]
+}
+
+func unhexS(t string) (string, bool) {
+	b, ok := core.Unhex(t)
+	return string(b), ok
+}
+
+var leafArity = map[string]int{"status": 1, "header": 2, "method": 1, "url": 4, "qs": 2, "failure": 1, "ping": 4, "nop": 0, "fail": 0}
+var condArity = map[string]int{"header": 2, "url": 4, "method": 1}
+
+func takeArgs(toks []string, n int, raw bool) ([]string, []string, bool) {
+	if len(toks) < n {
+		return nil, nil, false
+	}
+	out := make([]string, n)
+	for i := 0; i < n; i++ {
+		if raw {
+			out[i] = toks[i]
+			continue
+		}
+		s, ok := unhexS(toks[i])
+		if !ok {
+			return nil, nil, false
+		}
+		out[i] = s
+	}
+	return out, toks[n:], true
+}
+
+func parseNode(toks []string, depth int) (*node, []string, bool) {
+	if len(toks) < 2 || depth > 64 {
+		return nil, nil, false
+	}
+	n := &node{typ: toks[0], scope: toks[1]}
+	if !strings.Contains("d e q s b", n.scope) || len(n.scope) != 1 {
+		return nil, nil, false
+	}
+	toks = toks[2:]
+	switch n.typ {
+	case "L":
+		if len(toks) < 1 {
+			return nil, nil, false
+		}
+		n.leaf = toks[0]
+		ar, ok := leafArity[n.leaf]
+		if !ok {
+			return nil, nil, false
+		}
+		var ok2 bool
+		n.args, toks, ok2 = takeArgs(toks[1:], ar, n.leaf == "status")
+		if !ok2 {
+			return nil, nil, false
+		}
+		if n.leaf == "status" {
+			if _, err := strconv.ParseUint(n.args[0], 10, 31); err != nil {
+				return nil, nil, false
+			}
+		}
+		return n, toks, true
+	case "G":
+		if len(toks) < 2 || (toks[0] != "0" && toks[0] != "1") {
+			return nil, nil, false
+		}
+		n.agg = toks[0] == "1"
+		k, err := strconv.Atoi(toks[1])
+		if err != nil || k < 0 || k > 64 {
+			return nil, nil, false
+		}
+		toks = toks[2:]
+		for i := 0; i < k; i++ {
+			c, rest, ok := parseNode(toks, depth+1)
+			if !ok {
+				return nil, nil, false
+			}
+			n.kids = append(n.kids, c)
+			toks = rest
+		}
+		return n, toks, true
+	case "F":
+		if len(toks) < 1 {
+			return nil, nil, false
+		}
+		n.cond = toks[0]
+		ar, ok := condArity[n.cond]
+		if !ok {
+			return nil, nil, false
+		}
+		var ok2 bool
+		n.args, toks, ok2 = takeArgs(toks[1:], ar, false)
+		if !ok2 || len(toks) < 1 || (toks[0] != "0" && toks[0] != "1") {
+			return nil, nil, false
+		}
+		k := 1
+		if toks[0] == "1" {
+			k = 2
+		}
+		toks = toks[1:]
+		for i := 0; i < k; i++ {
+			c, rest, ok := parseNode(toks, depth+1)
+			if !ok {
+				return nil, nil, false
+			}
+			n.kids = append(n.kids, c)
+			toks = rest
+		}
+		return n, toks, true
+	}
+	return nil, nil, false
+}
+
+func (n *node) tokens() []string {
+	out := []string{n.typ, n.scope}
+	switch n.typ {
+	case "L":
+		out = append(out, n.leaf)
+		for _, a := range n.args {
+			if n.leaf == "status" {
+				out = append(out, a)
+			} else {
+				out = append(out, core.HexS(a))
+			}
+		}
+	case "G":
+		out = append(out, b01(n.agg), strconv.Itoa(len(n.kids)))
+		for _, k := range n.kids {
+			out = append(out, k.tokens()...)
+		}
+	case "F":
+		out = append(out, n.cond)
+		for _, a := range n.args {
+			out = append(out, core.HexS(a))
+		}
+		out = append(out, b01(len(n.kids) == 2))
+		for _, k := range n.kids {
+			out = append(out, k.tokens()...)
+		}
+	}
+	return out
+}
+
+func b01(b bool) string {
+	if b {
+		return "1"
+	}
+	return "0"
+}
+
+func (n *node) json() interface{} {
+	body := map[string]interface{}{}
+	switch n.scope {
+	case "e":
+		body["scope"] = []string{}
+	case "q":
+		body["scope"] = []string{"request"}
+	case "s":
+		body["scope"] = []string{"response"}
+	case "b":
+		body["scope"] = []string{"request", "response"}
+	}
+	name := ""
+	urlArgs := func() {
+		body["scheme"], body["host"], body["path"], body["query"] = n.args[0], n.args[1], n.args[2], n.args[3]
+	}
+	switch n.typ {
+	case "L":
+		switch n.leaf {
+		case "status":
+			name = "status.Verifier"
+			c, _ := strconv.Atoi(n.args[0])
+			body["statusCode"] = c
+		case "header":
+			name = "header.Verifier"
+			body["name"], body["value"] = n.args[0], n.args[1]
+		case "method":
+			name = "method.Verifier"
+			body["method"] = n.args[0]
+		case "url":
+			name = "url.Verifier"
+			urlArgs()
+		case "qs":
+			name = "querystring.Verifier"
+			body["name"], body["value"] = n.args[0], n.args[1]
+		case "failure":
+			name = "failure.Verifier"
+			body["message"] = n.args[0]
+		case "ping":
+			name = "pingback.Verifier"
+			urlArgs()
+		case "nop":
+			name = "c13.Nop"
+		case "fail":
+			name = "c13.Fail"
+		}
+	case "G":
+		name = "fifo.Group"
+		body["aggregateErrors"] = n.agg
+		ms := []interface{}{}
+		for _, k := range n.kids {
+			ms = append(ms, k.json())
+		}
+		body["modifiers"] = ms
+	case "F":
+		switch n.cond {
+		case "header":
+			name = "header.Filter"
+			body["name"], body["value"] = n.args[0], n.args[1]
+		case "url":
+			name = "url.Filter"
+			urlArgs()
+		case "method":
+			name = "method.Filter"
+			body["method"] = n.args[0]
+		}
+		body["modifier"] = n.kids[0].json()
+		if len(n.kids) == 2 {
+			body["else"] = n.kids[1].json()
+		}
+	}
+	return map[string]interface{}{name: body}
+}
+
+// ---------------------------------------------------------------------------------------------
+// messages
+
+type msg struct {
+	api                             bool
+	method, scheme, host, path, qry string
+	frag                            string
+	reqH, resH                      [][]string // name, values...
+	status                          int
+	id                              int
+}
+
+func parseHdr(t string) ([][]string, bool) {
+	if t == "-" {
+		return nil, true
+	}
+	var out [][]string
+	for _, e := range strings.Split(t, ";") {
+		nv := strings.Split(e, ":")
+		if len(nv) != 2 {
+			return nil, false
+		}
+		n, ok := unhexS(nv[0])
+		if !ok {
+			return nil, false
+		}
+		ent := []string{n}
+		if nv[1] != "" {
+			for _, v := range strings.Split(nv[1], ",") {
+				s, ok := unhexS(v)
+				if !ok {
+					return nil, false
+				}
+				ent = append(ent, s)
+			}
+		}
+		out = append(out, ent)
+	}
+	return out, true
+}
+
+func hdrToken(h [][]string) string {
+	if len(h) == 0 {
+		return "-"
+	}
+	var es []string
+	for _, e := range h {
+		var vs []string
+		for _, v := range e[1:] {
+			vs = append(vs, core.HexS(v))
+		}
+		es = append(es, core.HexS(e[0])+":"+strings.Join(vs, ","))
+	}
+	return strings.Join(es, ";")
+}
+
+var fragRe = regexp.MustCompile(`^m([0-9]{1,9})$`)
+
+func parseMsg(f []string) (*msg, bool) {
+	if len(f) != 10 || (f[0] != "0" && f[0] != "1") {
+		return nil, false
+	}
+	m := &msg{api: f[0] == "1"}
+	var ok bool
+	for i, p := range []*string{&m.method, &m.scheme, &m.host, &m.path, &m.qry, &m.frag} {
+		if *p, ok = unhexS(f[1+i]); !ok {
+			return nil, false
+		}
+	}
+	if m.reqH, ok = parseHdr(f[7]); !ok {
+		return nil, false
+	}
+	st, err := strconv.ParseUint(f[8], 10, 31)
+	if err != nil {
+		return nil, false
+	}
+	m.status = int(st)
+	if m.resH, ok = parseHdr(f[9]); !ok {
+		return nil, false
+	}
+	fm := fragRe.FindStringSubmatch(m.frag)
+	if fm == nil {
+		return nil, false
+	}
+	m.id, _ = strconv.Atoi(fm[1])
+	return m, true
+}
+
+func (m *msg) op() string {
+	return strings.Join([]string{"t", b01(m.api), core.HexS(m.method), core.HexS(m.scheme), core.HexS(m.host), core.HexS(m.path),
+		core.HexS(m.qry), core.HexS(m.frag), hdrToken(m.reqH), strconv.Itoa(m.status), hdrToken(m.resH)}, " ")
+}
+
+func toHeader(h [][]string) http.Header {
+	out := http.Header{}
+	for _, e := range h {
+		out[e[0]] = append([]string{}, e[1:]...)
+	}
+	return out
+}
+
+// ---------------------------------------------------------------------------------------------
+// the implementation under test
+
+type impl struct {
+	reqmod martian.RequestModifier
+	resmod martian.ResponseModifier
+	vh     *verify.Handler
+	rh     *verify.ResetHandler
+}
+
+func newImpl() *impl {
+	m := martianhttp.NewModifier()
+	i := &impl{reqmod: m, resmod: m, vh: verify.NewHandler(), rh: verify.NewResetHandler()}
+	i.vh.SetRequestVerifier(m)
+	i.vh.SetResponseVerifier(m)
+	i.rh.SetRequestVerifier(m)
+	i.rh.SetResponseVerifier(m)
+	return i
+}
+
+// install returns nil when the configuration was rejected (the previous tree stays).
+func install(wiring string, n *node) *impl {
+	b, _ := json.Marshal(n.json())
+	if wiring == "d" {
+		r, err := parse.FromJSON(b)
+		if err != nil {
+			return nil
+		}
+		i := &impl{reqmod: r.RequestModifier(), resmod: r.ResponseModifier(), vh: verify.NewHandler(), rh: verify.NewResetHandler()}
+		if v, ok := i.reqmod.(verify.RequestVerifier); ok {
+			i.vh.SetRequestVerifier(v)
+			i.rh.SetRequestVerifier(v)
+		}
+		if v, ok := i.resmod.(verify.ResponseVerifier); ok {
+			i.vh.SetResponseVerifier(v)
+			i.rh.SetResponseVerifier(v)
+		}
+		return i
+	}
+	i := newImpl()
+	rw := httptest.NewRecorder()
+	req := httptest.NewRequest("POST", "http://martian.proxy/configure", bytes.NewReader(b))
+	i.reqmod.(*martianhttp.Modifier).ServeHTTP(rw, req)
+	if rw.Code != 200 {
+		return nil
+	}
+	return i
+}
+
+func (i *impl) traffic(m *msg) (reqErr, resErr bool) {
+	req := &http.Request{Method: m.method, URL: &url.URL{Scheme: m.scheme, Host: m.host, Path: m.path, RawQuery: m.qry, Fragment: m.frag},
+		Proto: "HTTP/1.1", ProtoMajor: 1, ProtoMinor: 1, Header: toHeader(m.reqH), Host: m.host, Body: http.NoBody}
+	ctx, remove, err := martian.TestContext(req, nil, nil)
+	if err != nil {
+		panic(err)
+	}
+	defer remove()
+	if m.api {
+		ctx.APIRequest()
+	}
+	if i.reqmod != nil {
+		reqErr = i.reqmod.ModifyRequest(req) != nil
+	}
+	res := proxyutil.NewResponse(m.status, nil, req)
+	res.Header = toHeader(m.resH)
+	if i.resmod != nil {
+		resErr = i.resmod.ModifyResponse(res) != nil
+	}
+	return
+}
+
+// query performs GET on the verification handler; problem != "" when the response is not the
+// documented JSON document.
+func (i *impl) query() (msgs []string, problem string) {
+	rw := httptest.NewRecorder()
+	i.vh.ServeHTTP(rw, httptest.NewRequest("GET", "http://martian.proxy/verify", nil))
+	if rw.Code != 200 {
+		return nil, fmt.Sprintf("status %d", rw.Code)
+	}
+	if ct := rw.Header().Get("Content-Type"); ct != "application/json" {
+		return nil, "content type " + ct
+	}
+	var doc struct {
+		Errors *[]struct {
+			Message *string `json:"message"`
+		} `json:"errors"`
+	}
+	dec := json.NewDecoder(rw.Body)
+	dec.DisallowUnknownFields()
+	if err := dec.Decode(&doc); err != nil {
+		return nil, "body is not the documented JSON: " + err.Error()
+	}
+	if doc.Errors == nil {
+		return nil, "no errors array"
+	}
+	for _, e := range *doc.Errors {
+		if e.Message == nil {
+			return nil, "error without message"
+		}
+		msgs = append(msgs, *e.Message)
+	}
+	return msgs, ""
+}
+
+func (i *impl) reset() int {
+	rw := httptest.NewRecorder()
+	i.rh.ServeHTTP(rw, httptest.NewRequest("POST", "http://martian.proxy/verify/reset", nil))
+	return rw.Code
+}
+
+// ---------------------------------------------------------------------------------------------
+// the oracle: independent bookkeeping of unmet expectation evaluations since the last reset
+
+type onode struct {
+	n       *node
+	kids    []*onode // G: children on this side; F: [then, else] (nil = nothing on this side)
+	unmet   []int    // ids of exchanges whose evaluation was unmet (verifier leaves)
+	pending bool     // pingback
+}
+
+func implements(n *node) (bool, bool) {
+	if n.typ != "L" {
+		return true, true
+	}
+	switch n.leaf {
+	case "status":
+		return false, true
+	case "header", "nop", "fail":
+		return true, true
+	}
+	return true, false
+}
+
+// present: is the node part of this side's tree; valid: is the configuration acceptable.
+func present(n *node, req bool) (present, valid bool) {
+	q, s := implements(n)
+	switch n.scope {
+	case "d":
+	case "e":
+		q, s = false, false
+	case "q":
+		if !q {
+			return false, false
+		}
+		s = false
+	case "s":
+		if !s {
+			return false, false
+		}
+		q = false
+	case "b":
+		if !q || !s {
+			return false, false
+		}
+	}
+	if req {
+		return q, true
+	}
+	return s, true
+}
+
+func project(n *node, req bool) (*onode, bool) {
+	if n.typ == "L" && ((n.leaf == "method" && n.args[0] == "") || (n.leaf == "qs" && n.args[0] == "")) {
+		return nil, false
+	}
+	p, valid := present(n, req)
+	if !valid {
+		return nil, false
+	}
+	o := &onode{n: n, pending: true}
+	switch n.typ {
+	case "G":
+		for _, k := range n.kids {
+			ko, ok := project(k, req)
+			if !ok {
+				return nil, false
+			}
+			if ko != nil {
+				o.kids = append(o.kids, ko)
+			}
+		}
+	case "F":
+		o.kids = []*onode{nil, nil}
+		for i, k := range n.kids {
+			ko, ok := project(k, req)
+			if !ok {
+				return nil, false
+			}
+			o.kids[i] = ko
+		}
+	}
+	if !p {
+		return nil, true
+	}
+	return o, true
+}
+
+func hdrValues(h [][]string, name string) ([]string, bool) {
+	for _, e := range h {
+		if e[0] == name {
+			return e[1:], true
+		}
+	}
+	return nil, false
+}
+
+func contains(vs []string, v string) bool {
+	for _, x := range vs {
+		if x == v {
+			return true
+		}
+	}
+	return false
+}
+
+func urlDiffers(a []string, m *msg, exactHost bool) bool {
+	return (a[0] != "" && a[0] != m.scheme) || (a[1] != "" && a[1] != m.host) || (a[2] != "" && a[2] != m.path) || (a[3] != "" && a[3] != m.qry)
+}
+
+// met decides whether a verifier's expectation holds for an exchange (statement of each
+// verifier's documentation, written without looking at the implementation's control flow).
+func met(n *node, m *msg, req bool) bool {
+	switch n.leaf {
+	case "status":
+		return strconv.Itoa(m.status) == n.args[0]
+	case "header":
+		h := m.resH
+		if req {
+			h = m.reqH
+		}
+		vs, ok := hdrValues(h, n.args[0])
+		if !ok {
+			return false
+		}
+		if n.args[1] == "" {
+			return len(vs) > 0
+		}
+		return contains(vs, n.args[1])
+	case "method":
+		return m.method == n.args[0]
+	case "url":
+		return !urlDiffers(n.args, m, false)
+	case "qs":
+		vals, err := url.ParseQuery(m.qry)
+		if err != nil {
+			return false
+		}
+		vs, ok := vals[n.args[0]]
+		if !ok {
+			return false
+		}
+		return n.args[1] == "" || contains(vs, n.args[1])
+	case "failure":
+		return false
+	}
+	return true
+}
+
+func condHolds(n *node, m *msg, req bool) bool {
+	switch n.cond {
+	case "header":
+		h := m.resH
+		if req {
+			h = m.reqH
+		}
+		vs, _ := hdrValues(h, n.args[0])
+		return contains(vs, n.args[1])
+	case "url":
+		return !urlDiffers(n.args, m, false)
+	case "method":
+		return strings.EqualFold(m.method, n.args[0])
+	}
+	return false
+}
+
+type evalHit struct {
+	o  *onode
+	ok bool // expectation met
+}
+
+// evaluate walks one side of the tree for one exchange and lists the verifier evaluations that
+// take place (reached and not an API request); it returns whether the node returned an error.
+func evaluate(o *onode, m *msg, req bool, hits *[]evalHit) bool {
+	if o == nil {
+		return false
+	}
+	switch o.n.typ {
+	case "L":
+		switch o.n.leaf {
+		case "nop":
+			return false
+		case "fail":
+			return true
+		}
+		if m.api {
+			return false
+		}
+		if o.n.leaf == "ping" {
+			*hits = append(*hits, evalHit{o, !urlDiffers(o.n.args, m, true)})
+			return false
+		}
+		*hits = append(*hits, evalHit{o, met(o.n, m, req)})
+		return false
+	case "G":
+		failed := false
+		for _, k := range o.kids {
+			if evaluate(k, m, req, hits) {
+				failed = true
+				if !o.n.agg {
+					return true
+				}
+			}
+		}
+		return failed
+	case "F":
+		if condHolds(o.n, m, req) {
+			return evaluate(o.kids[0], m, req, hits)
+		}
+		return evaluate(o.kids[1], m, req, hits)
+	}
+	return false
+}
+
+func (o *onode) walk(f func(*onode)) {
+	if o == nil {
+		return
+	}
+	f(o)
+	for _, k := range o.kids {
+		k.walk(f)
+	}
+}
+
+func tagOf(n *node) string {
+	switch n.leaf {
+	case "failure":
+		return "failure:" + n.args[0]
+	case "qs":
+		return "param"
+	}
+	return n.leaf
+}
+
+var headRe = regexp.MustCompile(`(?m)^(request|response)\(`)
+
+var idRe = regexp.MustCompile(`#m([0-9]+)\)`)
+
+// classify maps an error message of the implementation to (exchange id, verifier tag).
+func classify(s string) (int, string) {
+	id := -1
+	if m := idRe.FindStringSubmatch(s); m != nil {
+		id, _ = strconv.Atoi(m[1])
+	}
+	switch {
+	case strings.Contains(s, ": pingback never occurred"):
+		return -1, "ping"
+	case strings.Contains(s, ") status code verify failure: "):
+		return id, "status"
+	case strings.Contains(s, ") header verify failure: "):
+		return id, "header"
+	case strings.Contains(s, ") method verification error: "):
+		return id, "method"
+	case strings.Contains(s, ") url verify failure:"):
+		return id, "url"
+	case strings.Contains(s, ") param verification error: "), strings.Contains(s, ") parsing failed;"):
+		return id, "param"
+	}
+	if i := strings.Index(s, ") verification error: "); i >= 0 {
+		return id, "failure:" + s[i+len(") verification error: "):]
+	}
+	return id, "unknown"
+}
+
+type key struct {
+	id  int
+	tag string
+}
+
+type oracle struct {
+	req, res *onode
+	api      map[int]bool // ids of API exchanges
+	epoch    map[int]int  // id -> number of resets before the exchange
+	resets   int
+}
+
+func newOracle(n *node) (*oracle, bool) {
+	q, ok1 := project(n, true)
+	s, ok2 := project(n, false)
+	if !ok1 || !ok2 {
+		return nil, false
+	}
+	return &oracle{req: q, res: s, api: map[int]bool{}, epoch: map[int]int{}}, true
+}
+
+func (o *oracle) sides(f func(root *onode, req bool)) {
+	f(o.req, true)
+	f(o.res, false)
+}
+
+// failuresOf lists, for one exchange, the (tag) of every unmet verifier evaluation, and the
+// pingback verifiers it satisfies.
+func (o *oracle) failuresOf(m *msg) (unmet []*onode, pinged []*onode) {
+	o.sides(func(root *onode, req bool) {
+		var hits []evalHit
+		evaluate(root, m, req, &hits)
+		for _, h := range hits {
+			if h.o.n.leaf == "ping" {
+				if h.ok {
+					pinged = append(pinged, h.o)
+				}
+			} else if !h.ok {
+				unmet = append(unmet, h.o)
+			}
+		}
+	})
+	return
+}
+
+func (o *oracle) traffic(m *msg) {
+	if m.api {
+		o.api[m.id] = true
+	}
+	o.epoch[m.id] = o.resets
+	unmet, pinged := o.failuresOf(m)
+	for _, l := range unmet {
+		l.unmet = append(l.unmet, m.id)
+	}
+	for _, l := range pinged {
+		l.pending = false
+	}
+}
+
+func (o *oracle) reset() {
+	o.resets++
+	o.sides(func(root *onode, _ bool) {
+		root.walk(func(n *onode) { n.unmet = nil; n.pending = true })
+	})
+}
+
+func (o *oracle) expected() map[key]int {
+	exp := map[key]int{}
+	o.sides(func(root *onode, _ bool) {
+		root.walk(func(n *onode) {
+			if n.n.typ != "L" {
+				return
+			}
+			if n.n.leaf == "ping" {
+				if n.pending {
+					exp[key{-1, "ping"}]++
+				}
+				return
+			}
+			for _, id := range n.unmet {
+				exp[key{id, tagOf(n.n)}]++
+			}
+		})
+	})
+	return exp
+}
+
+func count(msgs []string) map[key]int {
+	got := map[key]int{}
+	for _, s := range msgs {
+		id, tag := classify(s)
+		got[key{id, tag}]++
+	}
+	return got
+}
+
+// check compares a query result with the ledger: one error per unmet evaluation since the
+// last reset, none lost, none duplicated, none from API exchanges or from before the reset.
+func (o *oracle) check(msgs []string) (fail, sig string) {
+	for _, s := range msgs {
+		if len(headRe.FindAllString(s, -1)) > 1 {
+			return "one reported error carries several failures (nested errors not flattened): " + strconv.Quote(s), "c13:not-flat"
+		}
+	}
+	exp, got := o.expected(), count(msgs)
+	var keys []key
+	for k := range exp {
+		keys = append(keys, k)
+	}
+	for k := range got {
+		if _, ok := exp[k]; !ok {
+			keys = append(keys, k)
+		}
+	}
+	sort.Slice(keys, func(i, j int) bool {
+		if keys[i].id != keys[j].id {
+			return keys[i].id < keys[j].id
+		}
+		return keys[i].tag < keys[j].tag
+	})
+	for _, k := range keys {
+		e, g := exp[k], got[k]
+		if e == g {
+			continue
+		}
+		what := fmt.Sprintf("exchange m%d, %s verifier: %d error(s) reported, %d unmet evaluation(s) since the last reset", k.id, k.tag, g, e)
+		switch {
+		case k.tag == "unknown":
+			return "unrecognised error message in the report: " + what, "c13:unknown-message"
+		case g < e:
+			return "failure lost: " + what, "c13:lost"
+		case o.api[k.id]:
+			return "API request counted: " + what, "c13:api-counted"
+		case k.id >= 0 && o.epoch[k.id] < o.resets && e == 0:
+			return "failure from before the last reset still reported: " + what, "c13:stale-after-reset"
+		case k.tag == "ping" && o.resets > 0:
+			return "pingback state differs after reset: " + what, "c13:ping"
+		case e > 0:
+			return "failure duplicated: " + what, "c13:duplicated"
+		default:
+			return "error reported without an unmet evaluation: " + what, "c13:extra"
+		}
+	}
+	return "", ""
+}
+
+// ---------------------------------------------------------------------------------------------
+// Exec
+
+type ex struct {
+	im *impl
+	or *oracle
+}
+
+func (P) NewExec() core.Exec {
+	o, _ := newOracle(&node{typ: "L", scope: "d", leaf: "nop"})
+	return &ex{im: newImpl(), or: o}
+}
+func (e *ex) Close() {}
+
+func hexAll(msgs []string) string {
+	out := []string{"q", strconv.Itoa(len(msgs))}
+	for _, s := range msgs {
+		out = append(out, core.HexS(s))
+	}
+	return strings.Join(out, " ")
+}
+
+func (e *ex) checkedQuery() ([]string, core.Result) {
+	msgs, problem := e.im.query()
+	if problem != "" {
+		return nil, core.Result{Impl: "q invalid", Fail: "verification handler: " + problem, Sig: "c13:handler"}
+	}
+	again, _ := e.im.query()
+	if strings.Join(msgs, "\x00") != strings.Join(again, "\x00") {
+		return msgs, core.Result{Impl: hexAll(msgs), Fail: "two consecutive queries differ", Sig: "c13:query-not-idempotent"}
+	}
+	if f, sig := e.or.check(msgs); f != "" {
+		return msgs, core.Result{Impl: hexAll(msgs), Fail: f, Sig: sig}
+	}
+	return msgs, core.Result{Impl: hexAll(msgs)}
+}
+
+func (e *ex) Do(op string) core.Result {
+	f := strings.Split(op, " ")
+	switch f[0] {
+	case "tree":
+		if len(f) < 3 || (f[1] != "m" && f[1] != "d") {
+			return core.Result{Impl: "bad-op"}
+		}
+		n, rest, ok := parseNode(f[2:], 0)
+		if !ok || len(rest) != 0 {
+			return core.Result{Impl: "bad-op"}
+		}
+		im := install(f[1], n)
+		or, valid := newOracle(n)
+		core.Count("tree:" + map[bool]string{true: "accepted", false: "rejected"}[im != nil])
+		if (im != nil) != valid {
+			return core.Result{Impl: "tree ?", Fail: fmt.Sprintf("configuration accepted=%v but scope rules say valid=%v", im != nil, valid), Sig: "c13:config"}
+		}
+		if im == nil {
+			return core.Result{Impl: "tree err"}
+		}
+		e.im, e.or = im, or
+		return core.Result{Impl: "tree ok"}
+	case "t":
+		m, ok := parseMsg(f[1:])
+		if !ok {
+			return core.Result{Impl: "bad-op"}
+		}
+		if _, dup := e.or.epoch[m.id]; dup {
+			return core.Result{Impl: "bad-op"} // ids must be unique within a case
+		}
+		a, b := e.im.traffic(m)
+		e.or.traffic(m)
+		return core.Result{Impl: "t " + b01(a) + " " + b01(b)}
+	case "q":
+		if len(f) != 1 {
+			return core.Result{Impl: "bad-op"}
+		}
+		_, r := e.checkedQuery()
+		return r
+	case "r":
+		if len(f) != 1 {
+			return core.Result{Impl: "bad-op"}
+		}
+		code := e.im.reset()
+		e.or.reset()
+		if code != 204 {
+			return core.Result{Impl: "r " + strconv.Itoa(code), Fail: "reset handler answered " + strconv.Itoa(code), Sig: "c13:handler"}
+		}
+		// a reset returns every verifier to its initial state: the report right after it is the initial one
+		if _, r := e.checkedQuery(); r.Fail != "" {
+			r.Impl = "r 204"
+			r.Fail = "right after the reset: " + r.Fail
+			return r
+		}
+		return core.Result{Impl: "r 204"}
+	case "qbad", "rbad":
+		if len(f) != 1 {
+			return core.Result{Impl: "bad-op"}
+		}
+		rw := httptest.NewRecorder()
+		if f[0] == "qbad" {
+			e.im.vh.ServeHTTP(rw, httptest.NewRequest("POST", "http://martian.proxy/verify", nil))
+		} else {
+			e.im.rh.ServeHTTP(rw, httptest.NewRequest("GET", "http://martian.proxy/verify/reset", nil))
+		}
+		io.Copy(io.Discard, rw.Body)
+		res := core.Result{Impl: f[0] + " " + strconv.Itoa(rw.Code)}
+		if _, r := e.checkedQuery(); r.Fail != "" { // nothing may have changed
+			res.Fail, res.Sig = "after a wrong-method call: "+r.Fail, r.Sig
+		}
+		return res
+	case "conc":
+		if len(f) != 3 || (f[2] != "q" && f[2] != "r") {
+			return core.Result{Impl: "bad-op"}
+		}
+		seed, err := strconv.ParseUint(f[1], 10, 64)
+		if err != nil {
+			return core.Result{Impl: "bad-op"}
+		}
+		return e.concurrent(seed, f[2] == "r")
+	case "race":
+		if len(f) != 2 || raceModes[f[1]] == "" {
+			return core.Result{Impl: "bad-op"}
+		}
+		return raceOp(f[1])
+	case "urlstr":
+		if len(f) != 6 {
+			return core.Result{Impl: "bad-op"}
+		}
+		var p [5]string
+		for i := range p {
+			s, ok := unhexS(f[1+i])
+			if !ok {
+				return core.Result{Impl: "bad-op"}
+			}
+			p[i] = s
+		}
+		u := url.URL{Scheme: p[0], Host: p[1], Path: p[2], RawQuery: p[3], Fragment: p[4]}
+		return core.Result{Impl: "urlstr " + core.HexS(u.String())}
+	}
+	return core.Result{Impl: "bad-op"}
+}
+
+// ---------------------------------------------------------------------------------------------
+// concurrent tier: 8 goroutines issue traffic while the main goroutine queries (and resets).
+// Checked by the oracle only:
+//   * a failure of an exchange that completed before a query began (and began after the last
+//     reset ended) is in that query's report, exactly as often as it was unmet;
+//   * a report contains nothing but failures of exchanges that began before the query ended and
+//     had not completed before the last reset began; never more than the unmet evaluations;
+//   * at quiescence the report is exact (queries only) / within the same bounds (with resets);
+//   * after a final reset the report is the initial one.
+
+const concG, concK = 8, 24
+
+func (e *ex) concurrent(seed uint64, withResets bool) core.Result {
+	r := core.NewRand(seed)
+	type planned struct {
+		m      *msg
+		unmet  map[key]int
+		pinged bool
+	}
+	plan := make([][]planned, concG)
+	for g := range plan {
+		for k := 0; k < concK; k++ {
+			m := genMsg(r, 1000000+g*1000+k)
+			unmet, pinged := e.or.failuresOf(m)
+			p := planned{m: m, unmet: map[key]int{}, pinged: len(pinged) > 0}
+			for _, l := range unmet {
+				p.unmet[key{m.id, tagOf(l.n)}]++
+			}
+			plan[g] = append(plan[g], p)
+		}
+	}
+	pre := e.or.expected() // ledger before the phase (exact)
+	delete(pre, key{-1, "ping"})
+
+	var started, done [concG]atomic.Int32
+	var wg sync.WaitGroup
+	im := e.im
+	for g := 0; g < concG; g++ {
+		wg.Add(1)
+		go func(g int) {
+			defer wg.Done()
+			for k, p := range plan[g] {
+				started[g].Store(int32(k + 1))
+				im.traffic(p.m)
+				done[g].Store(int32(k + 1))
+				if k%6 == 5 {
+					time.Sleep(time.Duration(50+g*10) * time.Microsecond)
+				}
+			}
+		}(g)
+	}
+	snap := func(a *[concG]atomic.Int32) (s [concG]int) {
+		for g := range s {
+			s[g] = int(a[g].Load())
+		}
+		return
+	}
+	var resetBegunDone, resetEndedStarted [concG]int // snapshots around the last reset
+	resetSeen := false
+	verdict := func(msgs []string, doneBefore, startedAfter [concG]int, where string) (string, string) {
+		got := count(msgs)
+		need, may := map[key]int{}, map[key]int{}
+		if !resetSeen {
+			for k, n := range pre {
+				need[k], may[k] = n, n
+			}
+		}
+		for g := range plan {
+			for k, p := range plan[g] {
+				completedBeforeQuery := k < doneBefore[g]
+				startedBeforeQueryEnd := k < startedAfter[g]
+				completedBeforeReset := resetSeen && k < resetBegunDone[g]
+				startedAfterReset := !resetSeen || k >= resetEndedStarted[g]
+				for kk, n := range p.unmet {
+					if completedBeforeQuery && startedAfterReset {
+						need[kk] += n
+					}
+					if startedBeforeQueryEnd && !completedBeforeReset {
+						may[kk] += n
+					}
+				}
+			}
+		}
+		for k, g := range got {
+			if k.tag == "ping" {
+				continue
+			}
+			if k.tag == "unknown" {
+				return fmt.Sprintf("%s: unrecognised error message (exchange m%d)", where, k.id), "c13:unknown-message"
+			}
+			if g > may[k] {
+				sig := "c13:conc-extra"
+				if _, inPre := pre[k]; inPre || may[k] == 0 {
+					sig = "c13:conc-stale-or-extra"
+				}
+				return fmt.Sprintf("%s: exchange m%d, %s verifier reported %d time(s), at most %d possible", where, k.id, k.tag, g, may[k]), sig
+			}
+		}
+		for k, n := range need {
+			if got[k] < n {
+				return fmt.Sprintf("%s: failure lost: exchange m%d (%s verifier) completed before the query began, reported %d of %d", where, k.id, k.tag, got[k], n), "c13:conc-lost"
+			}
+		}
+		return "", ""
+	}
+
+	queries, resets := 0, 0
+	allDone := func() bool {
+		for g := range done {
+			if int(done[g].Load()) < concK {
+				return false
+			}
+		}
+		return true
+	}
+	for round := 0; !allDone() && round < 10000; round++ {
+		if withResets && round%3 == 2 {
+			b := snap(&done)
+			im.reset()
+			a := snap(&started)
+			resetBegunDone, resetEndedStarted, resetSeen = b, a, true
+			resets++
+		}
+		b := snap(&done)
+		msgs, problem := im.query()
+		a := snap(&started)
+		if problem != "" {
+			wg.Wait()
+			return core.Result{Impl: "conc", Fail: "verification handler during traffic: " + problem, Sig: "c13:handler"}
+		}
+		queries++
+		if f, sig := verdict(msgs, b, a, fmt.Sprintf("query %d during traffic", queries)); f != "" {
+			wg.Wait()
+			return core.Result{Impl: "conc", Fail: f, Sig: sig}
+		}
+	}
+	wg.Wait()
+	core.Stats["conc:queries-during-traffic"] += queries
+	core.Stats["conc:resets-during-traffic"] += resets
+	full := snap(&done)
+	msgs, problem := im.query()
+	if problem != "" {
+		return core.Result{Impl: "conc", Fail: "verification handler: " + problem, Sig: "c13:handler"}
+	}
+	if f, sig := verdict(msgs, full, full, "query at quiescence"); f != "" {
+		return core.Result{Impl: "conc", Fail: f, Sig: sig}
+	}
+	if !withResets {
+		// exact totals: ledger before the phase + every unmet evaluation of the phase
+		for g := range plan {
+			for _, p := range plan[g] {
+				e.or.traffic(p.m)
+			}
+		}
+		if f, sig := e.or.check(msgs); f != "" {
+			return core.Result{Impl: "conc", Fail: "totals at quiescence: " + f, Sig: sig}
+		}
+	}
+	if code := im.reset(); code != 204 {
+		return core.Result{Impl: "conc", Fail: "reset handler answered " + strconv.Itoa(code), Sig: "c13:handler"}
+	}
+	e.or.reset()
+	for g := range plan {
+		for _, p := range plan[g] {
+			e.or.epoch[p.m.id] = e.or.resets - 1
+		}
+	}
+	if _, r := e.checkedQuery(); r.Fail != "" {
+		return core.Result{Impl: "conc", Fail: "after the final reset: " + r.Fail, Sig: r.Sig}
+	}
+	return core.Result{Impl: "conc"}
+}
